@@ -18,7 +18,7 @@ import (
 func init() {
 	core.Register(&core.Prop{
 		ID: "C03",
-		Rule: "polygon phase (30% of the spellings are handed over with rings laid out as consecutive sub-slices of one backing array): case = one valid lattice polygon (star-shaped or rectilinear integer shell, 0-4 lattice holes in disjoint cells strictly inside) or multi-polygon of 1-3 disjoint members, explored over its spelling orbit (every subset of rings reversed for <= 3 rings, sampled above; random rotation of each ring's start vertex; closed/unclosed spelling per ring) and a float image under a random similarity transform; Area/Centroid (geom and op) compared with exact rational shoelace measures (== on the integer grid, 1e-10 relative on floats); " +
+		Rule: "polygon phase (a quarter of the lattice spellings are repeated translated by 2^20..2^30, where the area is still exactly representable; 30% of the spellings are handed over with rings laid out as consecutive sub-slices of one backing array): case = one valid lattice polygon (star-shaped or rectilinear integer shell, 0-4 lattice holes in disjoint cells strictly inside) or multi-polygon of 1-3 disjoint members, explored over its spelling orbit (every subset of rings reversed for <= 3 rings, sampled above; random rotation of each ring's start vertex; closed/unclosed spelling per ring) and a float image under a random similarity transform; Area/Centroid (geom and op) compared with exact rational shoelace measures (== on the integer grid, 1e-10 relative on floats); " +
 			"line phase: random and integer line strings (repeated vertices included) with query points on the line, beyond its ends and at random: Length, Distance vs 200-bit references; Point.Buffer vs the regular n-gon; " +
 			"an evaluation is one measured call; non-trivial = shape with a hole or a reversed/rotated spelling whose measure was compared; distinct by spelling hash",
 		Assumptions: []string{"Polygon.Centroid / op.Centroid / op.Area are exercised only under their documented preconditions (closed rings, shell and holes oppositely oriented), as the property states", "float images keep |translation| <= 10 x size so that shoelace cancellation stays far below the 1e-10 tolerance"},
@@ -40,7 +40,7 @@ func init() {
 		Floors: func(t string) map[string]int64 {
 			return map[string]int64{"orbit.reversed_single_ring": 1000, "orbit.unclosed": 1000, "orbit.all_reversed": 500, "shape.with_holes": 500, "shape.multipolygon": 300,
 				"centroid.MultiPolygon": 1000, "centroid.Polygon": 500, "area.exact_equal": 5000, "area.float": 1000, "op.area": 500, "op.centroid": 500,
-				"distance.on_line": 500, "distance.beyond_end": 500, "distance.zero_length_segment": 200, "buffer": 500, "length": 1000, "line.long": 300, "storage.rings_share_one_backing_array": 1000}
+				"distance.on_line": 500, "distance.beyond_end": 500, "distance.zero_length_segment": 200, "buffer": 500, "length": 1000, "line.long": 300, "storage.rings_share_one_backing_array": 1000, "shape.far_from_origin": 1000}
 		},
 	})
 }
@@ -268,6 +268,25 @@ func runPolygon(c *core.Ctx) {
 				mp[m] = bases[m].spell(sps[m])
 			}
 			checkSpelling(c, mp, sps, wantA, wantCx, wantCy, 0, 1, "grid", mask)
+			if r.Chance(0.25) {
+				// the same lattice shape far from the origin (projected map coordinates: a 100-unit
+				// shape at 2^20 .. 2^30): the area is unchanged and still exactly representable, so a
+				// formula that multiplies absolute coordinates instead of differences loses it
+				e := r.IntRange(20, 30)
+				dx, dy := math.Ldexp(1, e)*float64(1-2*r.Intn(2)), math.Ldexp(1, r.IntRange(20, e))*float64(1-2*r.Intn(2))
+				far := make(geom.MultiPolygon, nm)
+				for m, pg := range mp {
+					far[m] = make(geom.Polygon, len(pg))
+					for i, ring := range pg {
+						far[m][i] = make(geom.Path, len(ring))
+						for j, p := range ring {
+							far[m][i][j] = geom.Point{X: p.X + dx, Y: p.Y + dy}
+						}
+					}
+				}
+				c.Count("shape.far_from_origin")
+				checkSpelling(c, far, sps, wantA, wantCx+dx, wantCy+dy, 0, 1, "grid-far-from-origin", mask)
+			}
 			// float image under a similarity transform
 			if rep == 1 {
 				sc := math.Pow(10, r.Range(-3, 3))
